@@ -82,9 +82,10 @@ def _doc():
 # ------------------------------------------------------------------ cases
 # A case is one self-contained history:
 #   start, body            state of the first wavefront ('plain' | 'tilted' | 'empty')
-#   pool                   long-lived plane objects [kind, name, variant, clip], built once, in order
+#   pool                   long-lived plane objects [kind, name, variant, clip(, override)], built once, in order
 #   ops                    ['mulp', ptype, variant, clip]   w = w * Plane(ptype=..)      (a new object)
 #                          ['mulc', class, variant, clip]   w = w * Class(..)            (a new object)
+#                          ['mulc', class, variant, clip, p]  w = w * Class(.., ptype=p)  (documented override)
 #                          ['pool', i, copy]                w = w * pool[i]   (copy: w * pool[i].copy())
 #                          ['prop', 'dft'|'fft', variant]   w = propagate_xxx(w, ..)
 #                          ['fresh', type, body, variant]   w = a new wavefront; the pool lives on
@@ -95,15 +96,24 @@ def _doc():
 #                                                           is not pinned by C08, so the model is not asked)
 #   sv                     construction variant of the first wavefront
 def _norm(c, o):
-    """-> (kind, name, variant, clip, pool index or None, copy)"""
+    """-> (kind, name, variant, clip, pool index or None, copy, ptype override or None)"""
     if o[0] == 'pool':
-        k, n, v, cl = c['pool'][o[1]]
-        return (k, n, v, bool(cl), o[1], bool(o[2]) if len(o) > 2 else False)
+        sp = c['pool'][o[1]]
+        return (sp[0], sp[1], sp[2], bool(sp[3]), o[1], bool(o[2]) if len(o) > 2 else False,
+                sp[4] if len(sp) > 4 else None)
     if o[0] in ('mulp', 'mulc'):
-        return (o[0], o[1], o[2], bool(o[3]) if len(o) > 3 else False, None, False)
+        return (o[0], o[1], o[2], bool(o[3]) if len(o) > 3 else False, None, False, o[4] if len(o) > 4 else None)
     if o[0] == 'back':
-        return ('back', o[1], 0, False, None, False)
-    return (o[0], o[1], o[2] if o[0] == 'prop' else (o[2], o[3] if len(o) > 3 else 0), False, None, False)
+        return ('back', o[1], 0, False, None, False, None)
+    return (o[0], o[1], o[2] if o[0] == 'prop' else (o[2], o[3] if len(o) > 3 else 0), False, None, False, None)
+
+
+def _overrides():
+    """(class, ptype) pairs the class constructors accept, read off the code"""
+    if 'overrides' not in _cache:
+        lentil = C.import_lentil()
+        _cache['overrides'] = [(k, p) for k in _classes() for p in PTYPES if gen_ptype.accepts_override(lentil, k, p)]
+    return _cache['overrides']
 
 
 def _rand_plane(rng, classes_ok, p_clip=0.08):
@@ -112,6 +122,9 @@ def _rand_plane(rng, classes_ok, p_clip=0.08):
         kind, name = 'mulp', rng.choice(PTYPES)
     else:
         kind, name = 'mulc', rng.choice(classes_ok)
+        ov = [p for k, p in _overrides() if k == name]
+        if ov and rng.random() < 0.4:
+            return [kind, name, rng.randrange(gen_ptype.n_variants(kind, name, clip)), clip, rng.choice(ov)]
     return [kind, name, rng.randrange(gen_ptype.n_variants(kind, name, clip)), clip]
 
 
@@ -130,22 +143,28 @@ def _rand_op(rng, classes_ok, npool=0):
 def generate(rng, tier):
     classes = _classes()
     ok = [k for k in classes if k not in BROKEN]
-    planes = [(kind, n, clip) for clip in (False, True) for kind, ns in (('mulp', PTYPES), ('mulc', classes)) for n in ns]
-    all_ops = [('mulp', p, clip) for p in PTYPES for clip in (False, True)] + \
-              [('mulc', k, clip) for k in classes for clip in (False, True)] + [('prop', m, False) for m in METHODS]
+    ovr = _overrides()
+    planes = [(kind, n, clip, None) for clip in (False, True) for kind, ns in (('mulp', PTYPES), ('mulc', classes)) for n in ns] \
+        + [('mulc', k, clip, p) for clip in (False, True) for k, p in ovr if k != 'Plane']
+    all_ops = [('mulp', p, clip, None) for p in PTYPES for clip in (False, True)] + \
+              [('mulc', k, clip, None) for k in classes for clip in (False, True)] + \
+              [('mulc', k, clip, p) for k, p in ovr if k != 'Plane' for clip in (False, True)] + \
+              [('prop', m, False, None) for m in METHODS]
     states = [(w, b) for w in WTYPES for b in BODIES]
 
-    def mk(kind, name, clip):
+    def mk(kind, name, clip, po=None):
         v = rng.randrange(gen_ptype.n_variants(kind, name, clip))
-        return ['prop', name, v] if kind == 'prop' else [kind, name, v, clip]
+        if kind == 'prop':
+            return ['prop', name, v]
+        return [kind, name, v, clip] if po is None else [kind, name, v, clip, po]
 
     # 1. every single step, exhaustively
     for (w, b) in states:
-        for kind, name, clip in all_ops:
-            yield {'op': 'program', 'start': w, 'body': b, 'pool': [], 'ops': [mk(kind, name, clip)]}
+        for kind, name, clip, po in all_ops:
+            yield {'op': 'program', 'start': w, 'body': b, 'pool': [], 'ops': [mk(kind, name, clip, po)]}
     # 2. every plane kind as ONE long-lived object used on wavefronts of two different types (both orders),
     #    directly, through copy(), and once more on the first type
-    for kind, name, clip in planes:
+    for kind, name, clip, po in planes:
         if name in BROKEN:
             continue
         for w1 in WTYPES:
@@ -153,20 +172,18 @@ def generate(rng, tier):
                 if w1 == w2:
                     continue
                 for cp in (False, True):
-                    yield {'op': 'program', 'start': w1, 'body': 'plain', 'pool': [mk(kind, name, clip)],
+                    yield {'op': 'program', 'start': w1, 'body': 'plain', 'pool': [mk(kind, name, clip, po)],
                            'ops': [['pool', 0, False], ['fresh', w2, rng.choice(BODIES), rng.randrange(2)],
                                    ['pool', 0, cp], ['fresh', w1, 'plain', 0], ['pool', 0, cp]]}
     # 3. every two-step program over the claimed operations (thorough), a sample of them (quick)
     claimed = [o for o in all_ops if o[1] not in BROKEN]
     pairs = [(s, a, b) for s in states for a in claimed for b in claimed]
-    if tier != 'thorough':
-        pairs = rng.sample(pairs, 300)
+    pairs = rng.sample(pairs, 300 if tier != 'thorough' else 6000)
     for (w, bd), a, b in pairs:
         yield {'op': 'program', 'start': w, 'body': bd, 'pool': [], 'ops': [mk(*a), mk(*b)]}
     # 3b. one wavefront object fanned out to two steps: [a, back to the operand, b]
     fan = [(w, a, b) for w in WTYPES for a in claimed for b in claimed]
-    if tier != 'thorough':
-        fan = rng.sample(fan, 200)
+    fan = rng.sample(fan, 200 if tier != 'thorough' else 2000)
     for w, a, b in fan:
         yield {'op': 'program', 'start': w, 'body': 'plain', 'pool': [], 'ops': [mk(*a), ['back', 1], mk(*b)]}
     # 4. random programs; two thirds of them draw their planes from a pool of long-lived objects
@@ -203,7 +220,7 @@ def encode(c):
     classes = _classes()
     out = [1, WTYPES.index(c['start']), BODIES.index(c['body']), len(c['ops'])]
     for o in c['ops']:
-        kind, name, v, clip, _pi, _cp = _norm(c, o)
+        kind, name, v, clip, _pi, _cp, po = _norm(c, o)
         if kind == 'back':
             return None
         if kind == 'mulp':
@@ -211,7 +228,7 @@ def encode(c):
         elif kind == 'mulc':
             if name not in classes:
                 return None
-            out += [1, classes.index(name), int(clip)]
+            out += [1, classes.index(name), int(clip) + 2 * (0 if po is None else 1 + PTYPES.index(po))]
         elif kind == 'prop':
             out += [2, METHODS.index(name), 0]
         else:
@@ -279,12 +296,13 @@ def run_impl(c):
         c['body'] = 'tilted' if c.get('tilted') else 'plain'
     w = gen_ptype.build_wavefront(lentil, c['start'], c['body'], c.get('sv', 0))
     hist = []
-    pool = [gen_ptype.build_plane(lentil, k, n, v, bool(cl)) for k, n, v, cl in c['pool']]
+    pool = [gen_ptype.build_plane(lentil, sp[0], sp[1], sp[2], bool(sp[3]), sp[4] if len(sp) > 4 else None)
+            for sp in c['pool']]
     trace = []
     with warnings.catch_warnings():
         warnings.simplefilter('ignore')
         for o in c['ops']:
-            kind, name, v, clip, pi, cp = _norm(c, o)
+            kind, name, v, clip, pi, cp, po = _norm(c, o)
             entry = {'before': _state(w)}
             hist.append(w)
             if kind == 'back':
@@ -302,7 +320,7 @@ def run_impl(c):
                 fn = (lambda ww, name=name, v=v: gen_ptype.do_propagate(lentil, name, ww, v))
             else:
                 if pi is None:
-                    pl = gen_ptype.build_plane(lentil, kind, name, v, clip)
+                    pl = gen_ptype.build_plane(lentil, kind, name, v, clip, po)
                 else:
                     pl = pool[pi].copy() if cp else pool[pi]
                 entry['plane_ptype'] = str(pl.ptype)
@@ -363,7 +381,7 @@ def _failures(c, impl):
         out.append((len(tr) - 1, 'not-a-wavefront', f'step {len(tr) - 1} did not return a Wavefront: {tr[-1].get("yields")}'))
     cur = [c['start'], c['body']]
     for i, e in enumerate(tr):
-        kind, name, v, clip, pi, cp = _norm(c, c['ops'][i])
+        kind, name, v, clip, pi, cp, po = _norm(c, c['ops'][i])
         if e['before'] != cur:
             out.append((i, 'state', f'step {i}: wavefront state {e["before"]} is not the state the previous step left ({cur})'))
         if kind == 'back':
@@ -386,8 +404,10 @@ def _failures(c, impl):
             if e['plane_ptype'] != name:
                 out.append((i, 'ptype', f'step {i}: Plane(ptype={name}) carries ptype {e["plane_ptype"]}'))
         elif kind == 'mulc':
-            p = doc['class_ptype'].get(name)
-            if p is None:
+            p = po if po is not None else doc['class_ptype'].get(name)
+            if po is not None and e['plane_ptype'] != po:
+                out.append((i, 'override', f'step {i}: {name}(ptype={po}) carries ptype {e["plane_ptype"]}'))
+            elif p is None:
                 p = e['plane_ptype']        # class outside the planes.rst table: its own ptype attribute
             elif e['plane_ptype'] != p:
                 out.append((i, 'class-ptype', f'step {i}: class {name} has ptype {e["plane_ptype"]}, documented {p}'))
@@ -399,7 +419,7 @@ def _failures(c, impl):
             d = doc['prop'][(name, wt)]
         how = '' if pi is None else f' [pool object {pi}{", copy()" if cp else ""}, used before in this history]' \
             if any(_norm(c, o)[4] == pi for o in c['ops'][:i]) else f' [pool object {pi}{", copy()" if cp else ""}]'
-        what = f'step {i} {kind} {name}{how} on a {wt} wavefront ({e["before"][1]})'
+        what = f'step {i} {kind} {name}{"" if po is None else "(ptype=" + po + ")"}{how} on a {wt} wavefront ({e["before"][1]})'
         if 'raises' in e:
             if e['kept'] != e['before']:
                 out.append((i, 'kept', f'{what}: refused ({e["raises"]}) but the wavefront state changed '
@@ -446,6 +466,8 @@ def known_match(f, c, impl):
             return False
         kind, name = _norm(c, c['ops'][i])[:2]
         e = impl['trace'][i]
+        if _norm(c, c['ops'][i])[6] is not None:
+            return False
         if not (kind == 'mulc' and name in m.get('plane_class', []) and code in ('class-ptype', 'refused')):
             return False
         if code == 'class-ptype' and e.get('plane_ptype') != m.get('ptype'):
